@@ -42,7 +42,7 @@ def main():
         sh("git fetch -q origin && git checkout -q --detach origin/main && git checkout -q -- . && git clean -fdq", wt)
         head = sh("git rev-parse --short HEAD", wt)[1].strip()
         dest = os.path.join(wt, crate, "tests", tname + ".rs")
-        sh("cp %s %s" % (os.path.join(d, "demo.rs"), dest), wt)
+        sh("mkdir -p %s && cp %s %s" % (os.path.dirname(dest), os.path.join(d, "demo.rs"), dest), wt)
         demo_cmd = "cargo test -p %s --offline --test %s" % (crate, tname)
         rc0, out0 = sh(demo_cmd, wt, env)
         rcp, outp = sh("patch -p1 -s < %s" % os.path.join(d, "patch.diff"), wt)
